@@ -123,6 +123,10 @@ func c08Eval(c *ctx, cs c08Case) {
 	}
 }
 
+// literals of every spelling, to stand where a value of another kind is expected
+var oddLiterals = []string{"0x1f", "0X1F", "0xabcdef", "0b101", "0B11", "0o17", "0O7", "1e5", "1E5", "2.5e-3", "1.5", "-0x10", "+0b1", "0x", "0b", "1e", "T", "f", "t", "F",
+	"0x7f", "0xFF", "255", "256", "-1", "1e400", "0x1p-2", "0X1P+2", "inf", "NaN", "Infinity", "nan", "true", "False", "0e0", "00", "0x00000000000000001"}
+
 var soupVocab = []string{"S1F1", "S6F11", "s0f0", "S999F1", "S1F999", "W", "[W]", "w", "H->E", "H<-E", "H<->E", "h->e", "Name", "名前", "a.b", ".", "<", ">", "L", "A", "B", "BOOLEAN",
 	"F4", "F8", "I1", "I2", "I4", "I8", "U1", "U2", "U4", "U8", "l", "boolean", "[2]", "[0]", "[1..3]", "[..2]", "[2..]", "[ 2 .. 3 ]", "[]", "[x]", "0", "1", "-1", "255", "256", "0x1F", "0b101", "0o17",
 	"1.5", "-2.5e3", "1e999", "0x", "1e", "T", "F", "t", "x", "var_1", "v[0]", "v[1][2]", "...", "...[0]", "...[3]", `"str"`, `""`, `"a b"`, `"<L>"`, "@", "#", "é", "1x", "12abc"}
@@ -218,7 +222,7 @@ func forceGaps(toks []smltext.Tok) []smltext.Tok {
 }
 
 func runC08(c *ctx) {
-	c.Rule = "one token sequence, two renderings. Sequences: valid messages (1-3 per text, all literal forms), valid messages with one token deleted/duplicated/replaced (always-separated tokens), token soups from the SML vocabulary. Layout move: every gap becomes any non-empty mix of space/tab/LF/CRLF (optional gaps may appear/disappear only where the harness's own rule says the two tokens cannot merge), // comments with 45 bodies (punctuation, several scripts, every kind of final byte incl. ...0x85, ...0xA0, VT, FF, NBSP, U+2028, quotes) appended to any line, with or without a final line break. Case move: S/F, W, [W], direction, type names, T/F, 0X/0B/0O, hex digits, exponent E. Oracle: identical messages (all observers), same number of errors and warnings, same texts (case-insensitively for case moves), and each diagnostic's position must be the position of the same token (same offset inside it) or the end of input in the other rendering. non-trivial = the renderings differ and contain a comment or >= 4 tokens; distinct by the pair of texts"
+	c.Rule = "one token sequence, two renderings. Sequences: valid messages (1-3 per text, all literal forms), valid messages with one token deleted/duplicated/replaced (always-separated tokens), valid messages in which one value is replaced in place by a literal of another kind or spelling, token soups from the SML vocabulary. Layout move: every gap becomes any non-empty mix of space/tab/LF/CRLF (optional gaps may appear/disappear only where the harness's own rule says the two tokens cannot merge), // comments with 45 bodies (punctuation, several scripts, every kind of final byte incl. ...0x85, ...0xA0, VT, FF, NBSP, U+2028, quotes) appended to any line, with or without a final line break. Case move: S/F, W, [W], direction, type names, T/F, 0X/0B/0O, hex digits, exponent E. Oracle: identical messages (all observers), same number of errors and warnings, same texts (case-insensitively for case moves), and each diagnostic's position must be the position of the same token (same offset inside it) or the end of input in the other rendering. non-trivial = the renderings differ and contain a comment or >= 4 tokens; distinct by the pair of texts"
 	c.Assume = []string{"the renderer's (line, column) convention: line = 1 + number of LF before, column = 1 + characters since the last LF", "optional gaps are only used inside valid messages, where the harness's GapRequired rule says the neighbours cannot merge", "comment bodies contain a double quote only when every token has balanced quotes"}
 	var statMu = make(chan struct{}, 1)
 	agg := map[string]int{}
@@ -252,7 +256,40 @@ func runC08(c *ctx) {
 				toks = append(toks, smltext.MsgToks(st, m, r.Bool())...)
 			}
 			c08Eval(c, mkCase(r, toks, "valid", move, stats))
-		case 2: // one structural mutation of a valid message
+		case 2: // a valid message in which one value is replaced by a literal of another kind or spelling: the token keeps
+			// its place inside the item (so letter-case and layout moves stay admissible), the text is mostly invalid
+			if i%8 == 2 {
+				it := g.Tree()
+				items := allItems(it)
+				victim := items[r.Intn(len(items))]
+				if victim.Kind == ref.L || victim.AVar != "" {
+					return
+				}
+				slot := -1
+				if len(victim.Slots) > 0 {
+					slot = r.Intn(len(victim.Slots))
+				}
+				lit := oddLiterals[r.Intn(len(oddLiterals))]
+				done := false
+				st := &smltext.NumStyle{R: r, Variety: true}
+				st.Replace = func(x *ref.Item, sl int) []smltext.Tok {
+					if x != victim || sl != slot || done {
+						return nil
+					}
+					done = true
+					up := strings.ToUpper(lit)
+					if c0 := lit[0]; (c0 >= '0' && c0 <= '9') || c0 == '-' || c0 == '+' || up == "T" || up == "F" {
+						return []smltext.Tok{smltext.KW(lit, smltext.Word)} // numbers and T/F: letter case is free
+					}
+					return []smltext.Tok{smltext.W(lit)} // identifiers (inf, NaN, true …) are variable names: case matters
+				}
+				toks := smltext.MsgToks(st, g.Msg(it, false), false)
+				if !done {
+					return
+				}
+				c08Eval(c, mkCase(r, toks, "odd-literal", move, stats))
+				return
+			}
 			m := g.Msg(g.Tree(), false)
 			st := &smltext.NumStyle{R: r, Variety: true}
 			toks := smltext.MsgToks(st, m, r.Bool())
@@ -299,7 +336,7 @@ func runC08(c *ctx) {
 	for k, v := range agg {
 		c.ClassN("layout/"+k, int64(v))
 	}
-	c.Required = []string{"move/layout/valid", "move/layout/mutated", "move/layout/soup", "move/case/valid", "accepted", "with-errors", "layout/comment", "layout/comment-final-byte/0xa0", "layout/comment-final-byte/0x85", "layout/comment/final-without-eol", "layout/size-declaration-with-inner-line-break", "diagnostic-at/token", "diagnostic-at/end"}
+	c.Required = []string{"move/layout/valid", "move/layout/mutated", "move/layout/soup", "move/layout/odd-literal", "move/case/odd-literal", "move/case/valid", "accepted", "with-errors", "layout/comment", "layout/comment-final-byte/0xa0", "layout/comment-final-byte/0x85", "layout/comment/final-without-eol", "layout/size-declaration-with-inner-line-break", "diagnostic-at/token", "diagnostic-at/end"}
 }
 
 func replayC08(c *ctx, raw json.RawMessage) {
